@@ -164,3 +164,230 @@ Proof. intros Ha Hb Hc H. rewrite ftmuldiv_mod32 by assumption. apply wrap_s32_i
 (* ---------- TT_MulFix14 ---------- *)
 Lemma mul14_eq a b : i32 a -> i32 b -> sk_mul14 a b = ft_mulfix14 a b.
 Proof. intros _ _. reflexivity. Qed.
+
+Lemma mul14_core n : Z.shiftr (n + (8192 + (if n <? 0 then -1 else 0))) 14 = rha n 16384.
+Proof.
+  rewrite Z.shiftr_div_pow2 by lia. pows.
+  destruct (n <? 0) eqn:E.
+  - rewrite rha_neg by lia. lia.
+  - rewrite rha_pos by lia. lia.
+Qed.
+
+Lemma mul14_spec a b : i32 a -> i32 b -> sk_mul14 a b = wrap_s 32 (rha (a * b) 16384).
+Proof.
+  intros Ha Hb. unfold sk_mul14. cbv zeta.
+  assert (Hp : -9223372036854775808 <= a * b < 9223372036854775808) by (unfold i32 in *; nia).
+  rewrite (shiftr63 _ Hp). rewrite mul14_core. reflexivity.
+Qed.
+
+(* ---------- FT_MulDiv_No_Round ---------- *)
+Lemma chk32_some z v : chk_s 32 z = Some v -> v = z /\ i32 z.
+Proof.
+  unfold chk_s, in_s, i32. pows. destruct (_ && _) eqn:E; [|discriminate].
+  intros H. inversion H. subst. lia.
+Qed.
+
+Lemma chk32_id z : i32 z -> chk_s 32 z = Some z.
+Proof. unfold chk_s, in_s, i32. pows. intros H. replace (_ && _) with true by lia. reflexivity. Qed.
+
+Lemma abs_chk a z : i32 a -> (if a <? 0 then ar32 true (- a) else Some a) = Some z ->
+  z = Z.abs a /\ 0 <= z <= 2147483647.
+Proof.
+  intros Ha. unfold ar32. destruct (a <? 0) eqn:E.
+  - intros H. apply chk32_some in H. unfold i32 in *. lia.
+  - intros H. inversion H. subst. unfold i32 in *. lia.
+Qed.
+
+Ltac step H :=
+  match type of H with
+  | obind ?o _ = Some _ => let E := fresh "E" in destruct o eqn:E; cbn [obind] in H; [|discriminate H]
+  end.
+
+Lemma ftmuldiv_noround_mod32 a b c v : i32 a -> i32 b -> i32 c ->
+  sk_mul_div_no_round true a b c = Some v -> v = wrap_s 32 (ft_muldiv_no_round a b c).
+Proof.
+  intros Ha Hb Hc H. unfold sk_mul_div_no_round in H. cbv zeta in H.
+  step H. step H. step H.
+  apply (abs_chk a _ Ha) in E. apply (abs_chk b _ Hb) in E0. apply (abs_chk c _ Hc) in E1.
+  destruct E as [-> HA], E0 as [-> HB], E1 as [-> HC].
+  unfold ft_muldiv_no_round. cbv zeta.
+  rewrite (move_sign_abs a Ha), (move_sign_abs b Hb), (move_sign_abs c Hc).
+  rewrite sign3 in H.
+  assert (HD : (if 0 <? Z.abs c then Z.quot (Z.abs a * Z.abs b) (Z.abs c) else 2147483647)
+             = (if 0 <? Z.abs c then ulong (Z.abs a * Z.abs b) / Z.abs c else 2147483647)).
+  { destruct (0 <? Z.abs c) eqn:E; [|reflexivity].
+    rewrite Z.quot_div_nonneg by lia. rewrite ulong_nonneg by nia. reflexivity. }
+  rewrite HD in H. set (D := if 0 <? Z.abs c then _ else _) in *.
+  destruct (_ <? 0).
+  - unfold ar32 in H. apply chk32_some in H. destruct H as [-> Hr].
+    rewrite NEG_LONG_mod32, mod32_neg_long. rewrite <- wrap_s32_neg_wrap.
+    symmetry. apply wrap_s32_id. exact Hr.
+  - inversion H. rewrite wrap_s32_long. reflexivity.
+Qed.
+
+Lemma ftmuldiv_noround_eq a b c v : i32 a -> i32 b -> i32 c -> i32 (ft_muldiv_no_round a b c) ->
+  sk_mul_div_no_round true a b c = Some v -> v = ft_muldiv_no_round a b c.
+Proof.
+  intros Ha Hb Hc Hr H. rewrite (ftmuldiv_noround_mod32 a b c v) by assumption.
+  apply wrap_s32_id. exact Hr.
+Qed.
+
+(* the kernel does not trap when no operand is i32::MIN and the quotient fits *)
+Lemma muldiv_noround_total a b c : i32 a -> i32 b -> i32 c ->
+  a <> -2147483648 -> b <> -2147483648 -> c <> -2147483648 ->
+  (c <> 0 -> Z.abs a * Z.abs b / Z.abs c <= 2147483647) ->
+  exists v, sk_mul_div_no_round true a b c = Some v.
+Proof.
+  intros Ha Hb Hc Na Nb Nc Hq. unfold sk_mul_div_no_round. cbv zeta.
+  assert (Ea : (if a <? 0 then ar32 true (- a) else Some a) = Some (Z.abs a)).
+  { unfold ar32. destruct (a <? 0) eqn:E; [rewrite chk32_id by (unfold i32 in *; lia)|]; f_equal; lia. }
+  assert (Eb : (if b <? 0 then ar32 true (- b) else Some b) = Some (Z.abs b)).
+  { unfold ar32. destruct (b <? 0) eqn:E; [rewrite chk32_id by (unfold i32 in *; lia)|]; f_equal; lia. }
+  assert (Ec : (if c <? 0 then ar32 true (- c) else Some c) = Some (Z.abs c)).
+  { unfold ar32. destruct (c <? 0) eqn:E; [rewrite chk32_id by (unfold i32 in *; lia)|]; f_equal; lia. }
+  rewrite Ea, Eb, Ec. cbn [obind].
+  set (D := if 0 <? Z.abs c then _ else _).
+  assert (HD : 0 <= D <= 2147483647).
+  { subst D. destruct (0 <? Z.abs c) eqn:E; [|lia].
+    rewrite Z.quot_div_nonneg by lia. split; [apply Z.div_pos; nia | apply Hq; lia]. }
+  clearbody D.
+  match goal with |- context [if ?s then ar32 true _ else _] => destruct s end; [|eauto].
+  unfold ar32. rewrite chk32_id; [eauto|].
+  rewrite wrap_s32_id by (unfold i32; lia). unfold i32. lia.
+Qed.
+
+(* ---------- rounding: RoundState::round  vs  Round_* of ttinterp.c (compensation 0) ---------- *)
+Ltac inv_chk := repeat match goal with
+  | H : ar32 true _ = Some _ |- _ => apply chk32_some in H; destruct H as [? ?]; subst
+  | H : Some _ = Some _ |- _ => inversion H; clear H; subst
+  end.
+Ltac steps := repeat match goal with
+  | H : obind ?o _ = Some _ |- _ => let E := fresh "E" in destruct o eqn:E; cbn [obind] in H; [|discriminate H]
+  end.
+Ltac unfold_c :=
+  unfold FT_PIX_ROUND_LONG, FT_PIX_CEIL_LONG, FT_PAD_ROUND_LONG, FT_PAD_FLOOR, FT_PIX_FLOOR, sk_floor,
+         ADD_LONG, SUB_LONG, NEG_LONG, long, ulong, wrap_s, wrap_u in *.
+
+Lemma FLOORs x : Z.land x (Z.lnot 63) = x / 64 * 64.
+Proof. exact (sk_floor_spec x). Qed.
+Lemma PADs x : Z.land x (Z.lnot (32 - 1)) = x / 32 * 32.
+Proof. change (Z.lnot (32 - 1)) with (int_mask 5). rewrite land_int_mask by lia. reflexivity. Qed.
+
+Ltac grid_tac :=
+  steps; inv_chk; unfold_c; change (Z.quot 32 2) with 16 in *;
+  rewrite ?FLOORs, ?PADs in *; cbv zeta; pows; unfold i32 in *;
+  match goal with
+  | |- context [if ?c then _ else _] => destruct c eqn:?; lia
+  end.
+
+Lemma round_grid_eq thr ph per d v : i32 d ->
+  sk_rs_round true 0 thr ph per d = Some v -> v = ft_rs_round 0 thr ph per d.
+Proof.
+  intros Hd H. unfold sk_rs_round, sk_round in H. unfold ft_rs_round, ft_round_to_grid.
+  destruct (0 <=? d) eqn:Ed; grid_tac.
+Qed.
+
+Lemma round_half_grid_eq thr ph per d v : i32 d ->
+  sk_rs_round true 1 thr ph per d = Some v -> v = ft_rs_round 1 thr ph per d.
+Proof.
+  intros Hd H. unfold sk_rs_round in H. unfold ft_rs_round, ft_round_to_half_grid.
+  destruct (0 <=? d) eqn:Ed; grid_tac.
+Qed.
+
+Lemma round_double_grid_eq thr ph per d v : i32 d ->
+  sk_rs_round true 2 thr ph per d = Some v -> v = ft_rs_round 2 thr ph per d.
+Proof.
+  intros Hd H. unfold sk_rs_round, sk_round_pad, sk_floor_pad in H. unfold ft_rs_round, ft_round_to_double_grid.
+  destruct (0 <=? d) eqn:Ed; grid_tac.
+Qed.
+
+Lemma round_down_to_grid_eq thr ph per d v : i32 d ->
+  sk_rs_round true 3 thr ph per d = Some v -> v = ft_rs_round 3 thr ph per d.
+Proof.
+  intros Hd H. unfold sk_rs_round in H. unfold ft_rs_round, ft_round_down_to_grid.
+  destruct (0 <=? d) eqn:Ed; grid_tac.
+Qed.
+
+Lemma round_up_to_grid_eq thr ph per d v : i32 d ->
+  sk_rs_round true 4 thr ph per d = Some v -> v = ft_rs_round 4 thr ph per d.
+Proof.
+  intros Hd H. unfold sk_rs_round, sk_ceil in H. unfold ft_rs_round, ft_round_up_to_grid.
+  destruct (0 <=? d) eqn:Ed; grid_tac.
+Qed.
+
+(* Off: total, no precondition beyond the operand being an i32 *)
+Lemma round_off_eq thr ph per d : i32 d ->
+  sk_rs_round true 5 thr ph per d = Some (ft_rs_round 5 thr ph per d).
+Proof.
+  intros Hd. unfold sk_rs_round, ft_rs_round, ft_round_none. f_equal.
+  unfold_c. pows. unfold i32 in *. destruct (0 <=? d) eqn:Ed; cbv zeta;
+  match goal with |- context [if ?c then _ else _] => destruct c eqn:?; lia end.
+Qed.
+
+(* Super / Super45: all i32 (threshold, phase, period) and distances *)
+Lemma round_super_eq thr ph per d v : i32 thr -> i32 ph -> i32 per -> i32 d ->
+  sk_rs_round true 6 thr ph per d = Some v -> v = ft_rs_round 6 thr ph per d.
+Proof.
+  intros Ht Hp Hq Hd H. unfold sk_rs_round in H. unfold ft_rs_round, ft_round_super.
+  destruct (0 <=? d) eqn:Ed.
+  - steps. inv_chk.
+    rewrite (ADD_LONG_exact d (thr - ph + 0)) by (unfold i64, i32 in *; lia).
+    replace (d + (thr - ph + 0)) with (d + (thr - ph)) by lia.
+    set (L := Z.land _ _) in *. clearbody L. cbv zeta.
+    rewrite (ADD_LONG_exact L ph) by (unfold i64, i32 in *; lia).
+    reflexivity.
+  - steps.
+    match type of H with (if ?c then _ else _) = _ => destruct c eqn:Ev end; inv_chk;
+    rewrite (SUB_LONG_exact (thr - ph + 0) d) by (unfold i64, i32 in *; lia);
+    replace (thr - ph + 0 - d) with (thr - ph - d) by lia;
+    set (L := Z.land _ _) in *; clearbody L; cbv zeta;
+    rewrite (NEG_LONG_exact L) by (unfold i64, i32 in *; lia);
+    rewrite (SUB_LONG_exact (- L) ph) by (unfold i64, i32 in *; lia);
+    rewrite Ev; reflexivity.
+Qed.
+
+Lemma div32_some st a b q : div32 st a b = Some q -> b <> 0 /\ q = Z.quot a b /\ i32 q.
+Proof.
+  unfold div32. destruct (b =? 0) eqn:E; [discriminate|]. intros H. apply chk32_some in H.
+  destruct H as [-> Hi]. split; [lia|]. split; [reflexivity|exact Hi].
+Qed.
+
+Lemma round_super45_eq thr ph per d v : i32 thr -> i32 ph -> i32 per -> i32 d ->
+  sk_rs_round true 7 thr ph per d = Some v -> v = ft_rs_round 7 thr ph per d.
+Proof.
+  intros Ht Hp Hq Hd H. unfold sk_rs_round in H. unfold ft_rs_round, ft_round_super_45.
+  destruct (0 <=? d) eqn:Ed.
+  - steps. inv_chk.
+    match goal with Hdv : div32 _ _ _ = Some _ |- _ => apply div32_some in Hdv; destruct Hdv as (Hnz & -> & Hqi) end.
+    rewrite (ADD_LONG_exact d (thr - ph + 0)) by (unfold i64, i32 in *; lia).
+    replace (d + (thr - ph + 0)) with (d + (thr - ph)) by lia.
+    set (M := Z.quot _ _ * per) in *. clearbody M. cbv zeta.
+    rewrite (ADD_LONG_exact M ph) by (unfold i64, i32 in *; lia).
+    reflexivity.
+  - steps.
+    match goal with Hdv : div32 _ _ _ = Some _ |- _ => apply div32_some in Hdv; destruct Hdv as (Hnz & -> & Hqi) end.
+    match type of H with (if ?c then _ else _) = _ => destruct c eqn:Ev end; inv_chk;
+    rewrite (SUB_LONG_exact (thr - ph + 0) d) by (unfold i64, i32 in *; lia);
+    replace (thr - ph + 0 - d) with (thr - ph - d) by lia;
+    set (M := Z.quot _ _ * per) in *; clearbody M; cbv zeta;
+    rewrite (NEG_LONG_exact M) by (unfold i64, i32 in *; lia);
+    rewrite (SUB_LONG_exact (- M) ph) by (unfold i64, i32 in *; lia);
+    rewrite Ev; reflexivity.
+Qed.
+
+(* all modes at once *)
+Lemma round_state_eq mode thr ph per d v : 0 <= mode <= 7 -> i32 thr -> i32 ph -> i32 per -> i32 d ->
+  sk_rs_round true mode thr ph per d = Some v -> v = ft_rs_round mode thr ph per d.
+Proof.
+  intros Hm Ht Hp Hq Hd H.
+  assert (Hc : mode = 0 \/ mode = 1 \/ mode = 2 \/ mode = 3 \/ mode = 4 \/ mode = 5 \/ mode = 6 \/ mode = 7) by lia.
+  destruct Hc as [-> | [-> | [-> | [-> | [-> | [-> | [-> | ->]]]]]]].
+  - eapply round_grid_eq; eassumption.
+  - eapply round_half_grid_eq; eassumption.
+  - eapply round_double_grid_eq; eassumption.
+  - eapply round_down_to_grid_eq; eassumption.
+  - eapply round_up_to_grid_eq; eassumption.
+  - rewrite (round_off_eq thr ph per d Hd) in H. inversion H. reflexivity.
+  - eapply round_super_eq; eassumption.
+  - eapply round_super45_eq; eassumption.
+Qed.
